@@ -321,6 +321,9 @@ SliceEv(e) ==
       P(f, t, a) == PredHolds(e.p, f, t, a)
   IN
   IF void \/ div \/ IsNull(g) THEN Voided
+  ELSE IF e.v \notin IdsOf(g) THEN
+     \* C07: slicing from an id at or above the capacity is a limit overrun, which must panic
+     [Voided EXCEPT !.fails = fails \cup (IF e.panic THEN {} ELSE {F(e, "C07", "a limit overrun (slice from an id at or above the capacity) completed instead of panicking")})]
   ELSE IF ~SliceOk(g, e.v, P) THEN
      \* outside the domain of C13 (more than 14 reachable vertices, a dangling edge, ...): this slice is not judged and
      \* its result is unknown to the reference; the rest of the trace goes on
@@ -378,6 +381,10 @@ MergeEv(e) ==
       g == gs[h]
       hh == gs[s]
   IN
+  IF ~void /\ ~IsNull(g) /\ ~IsNull(hh) /\ (e.left \notin IdsOf(g) \/ e.right \notin IdsOf(hh)) THEN
+     \* C07: a vertex id at or above the capacity of the graph it is looked up in - a limit overrun, which must panic
+     [Voided EXCEPT !.fails = fails \cup (IF e.panic THEN {} ELSE {F(e, "C07", "a limit overrun (merge of an id at or above the capacity) completed instead of panicking")})]
+  ELSE
   IF void \/ div \/ IsNull(g) \/ IsNull(hh) \/ e.left \notin g.present \/ e.right \notin hh.present
         \/ ~ReachIsTree(hh, e.right) \/ ~MergeOp(g, hh, e.left, e.right).lim THEN Voided
   ELSE
